@@ -1,7 +1,190 @@
-//! C18 — harness not built yet.
+//! C18 — one loaded dictionary shared by concurrent tokenizers.
 use crate::common::*;
+use crate::dictutil::*;
+use serde_json::{json, Value};
+use std::process::Command;
+use std::sync::atomic::{AtomicUsize, Ordering};
+use std::sync::{Arc, Barrier, Mutex};
+use sudachi::analysis::mlist::MorphemeList;
+use sudachi::analysis::stateful_tokenizer::StatefulTokenizer;
+use sudachi::analysis::Mode;
+use sudachi::dic::dictionary::JapaneseDictionary;
 
-pub fn run(_args: &Args) {
-    eprintln!("no harness for C18 yet");
-    std::process::exit(2);
+// compile-time: the dictionary may be shared between threads
+fn assert_send_sync<T: Send + Sync>() {}
+#[allow(dead_code)]
+fn static_checks() {
+    assert_send_sync::<JapaneseDictionary>();
+    assert_send_sync::<Arc<JapaneseDictionary>>();
+}
+
+fn digest(dict: &JapaneseDictionary, tok: &mut StatefulTokenizer<&JapaneseDictionary>, mode: Mode, text: &str) -> u64 {
+    tok.set_mode(mode);
+    tok.reset().push_str(text);
+    if let Err(e) = tok.do_tokenize() {
+        return hash_of(&format!("ERR {:?}", e)) | 1;
+    }
+    let mut ml = MorphemeList::empty(dict);
+    ml.collect_results(tok).unwrap();
+    let mut s = String::new();
+    for m in ml.iter() {
+        s.push_str(&format!("{}|{}|{}|{}|{}|{}|{}|{:?}|{};", m.surface(), m.begin(), m.end(), m.part_of_speech().join(","), m.dictionary_form(), m.normalized_form(), m.reading_form(), m.word_id(), m.total_cost()));
+    }
+    (hash_of(&s) >> 16) | 1 // keep it small enough to print, never 0
+}
+
+fn texts(rng: &mut Rng, n: usize) -> Vec<String> {
+    let pool = ["東京都", "京都", "東京", "に", "行っ", "た", "。", "アイウ", "ー", "123", "1,000.5", "a", "Zz", " ", "か", "が", "👍🏻", "ｶﾞ", "㍿", "é", "𠮷", "高輪ゲートウェイ駅", "特a", "な。な", "いく", "二千", "(とうきょう)", "xx"];
+    (0..n)
+        .map(|_| {
+            let k = rng.below(10);
+            let mut s = String::new();
+            for _ in 0..k {
+                s.push_str(*rng.pick(&pool[..]));
+            }
+            s
+        })
+        .collect()
+}
+
+pub fn run(args: &Args) {
+    let mut sink = Sink::new("C18", &args.out, &["Model.Interleave"], args.seed, &args.tier);
+    sink.shard_size = 20;
+    sink.rule("N in 2..8 threads, each with its own StatefulTokenizer over one Arc<JapaneseDictionary> (all plugin kinds, a user dictionary), analyse private random text streams after a common barrier; every completed analysis is logged (thread, digest of all morpheme fields) in global completion order and compared (in Coq, through the interleaving model) with the single-threaded digests; the dictionary bytes' digest of a probe set is compared before/after; Python: threads over tokenizers of one Dictionary vs the sequential run; non-trivial = at least 2 threads with non-empty streams; distinct by content");
+    let mut rng = Rng::new(args.seed);
+    let res = format!("{}/sudachi/tests/resources", repo());
+    let system = std::fs::read(format!("{}/system.dic.test", res)).unwrap();
+    let user = std::fs::read(format!("{}/user.dic.test", res)).unwrap();
+    let dir = args.work.join("res");
+    let _ = std::fs::remove_dir_all(&dir);
+    prepare_resources(&dir, &res).unwrap();
+    let pos = json!(["名詞", "普通名詞", "一般", "*", "*", "*"]);
+    let cfg = json!({"characterDefinitionFile": "char.def",
+        "inputTextPlugin": [{"class": "com.worksap.nlp.sudachi.DefaultInputTextPlugin"},
+            {"class": "com.worksap.nlp.sudachi.ProlongedSoundMarkPlugin", "prolongedSoundMarks": ["ー", "-", "〜"], "replacementSymbol": "ー"},
+            {"class": "com.worksap.nlp.sudachi.IgnoreYomiganaPlugin", "leftBrackets": ["(", "（"], "rightBrackets": [")", "）"], "maxYomiganaLength": 4}],
+        "oovProviderPlugin": [{"class": "com.worksap.nlp.sudachi.RegexOovProvider", "oovPOS": pos, "leftId": 5, "rightId": 5, "cost": 3000, "regex": "[a-z]+", "maxLength": 32},
+            {"class": "com.worksap.nlp.sudachi.SimpleOovPlugin", "oovPOS": pos, "leftId": 8, "rightId": 8, "cost": 6000}],
+        "pathRewritePlugin": [{"class": "com.worksap.nlp.sudachi.JoinNumericPlugin", "enableNormalize": true},
+            {"class": "com.worksap.nlp.sudachi.JoinKatakanaOovPlugin", "oovPOS": pos, "minLength": 3}],
+        "connectionCostPlugin": [{"class": "com.worksap.nlp.sudachi.InhibitConnectionPlugin", "inhibitPair": [[1, 2]]}]});
+    let dict = Arc::new(load_dictionary(&dir, system, vec![user], &cfg).expect("dictionary"));
+
+    let rounds = if args.replay.is_some() { 0 } else { args.n(40, 400) };
+    for round in 0..rounds {
+        let nthreads = 2 + rng.below(7) as usize;
+        let pool_texts = texts(&mut rng, 12);
+        let modes = [Mode::A, Mode::B, Mode::C];
+        // text id = index * 3 + mode
+        let mut table: Vec<(u64, u64)> = vec![];
+        {
+            let d: &JapaneseDictionary = &dict;
+            let mut tok = StatefulTokenizer::new(d, Mode::C);
+            for (i, t) in pool_texts.iter().enumerate() {
+                for (mi, m) in modes.iter().enumerate() {
+                    table.push(((i * 3 + mi) as u64, digest(d, &mut tok, *m, t)));
+                }
+            }
+        }
+        let streams: Vec<Vec<u64>> = (0..nthreads).map(|_| (0..rng.below(12)).map(|_| rng.below(36)).collect()).collect();
+        let events: Arc<Mutex<Vec<(usize, u64)>>> = Arc::new(Mutex::new(vec![]));
+        let barrier = Arc::new(Barrier::new(nthreads));
+        let panics = Arc::new(AtomicUsize::new(0));
+        let mut handles = vec![];
+        for (ti, stream) in streams.iter().cloned().enumerate() {
+            let dict = dict.clone();
+            let events = events.clone();
+            let barrier = barrier.clone();
+            let pool_texts = pool_texts.clone();
+            let panics = panics.clone();
+            handles.push(std::thread::spawn(move || {
+                quiet_panics_thread();
+                let d: &JapaneseDictionary = &dict;
+                let mut tok = StatefulTokenizer::new(d, Mode::C);
+                barrier.wait();
+                for id in stream {
+                    let text = &pool_texts[(id / 3) as usize];
+                    let mode = [Mode::A, Mode::B, Mode::C][(id % 3) as usize];
+                    match catch(|| digest(d, &mut tok, mode, text)) {
+                        Ok(h) => events.lock().unwrap().push((ti, h)),
+                        Err(_) => {
+                            panics.fetch_add(1, Ordering::SeqCst);
+                            events.lock().unwrap().push((ti, 0));
+                            tok = StatefulTokenizer::new(d, Mode::C);
+                        }
+                    }
+                }
+            }));
+        }
+        for h in handles {
+            let _ = h.join();
+        }
+        let events = events.lock().unwrap().clone();
+        // dictionary unchanged: the single-threaded digests are reproduced afterwards
+        let mut after_ok = true;
+        {
+            let d: &JapaneseDictionary = &dict;
+            let mut tok = StatefulTokenizer::new(d, Mode::C);
+            for (i, t) in pool_texts.iter().enumerate() {
+                for (mi, m) in modes.iter().enumerate() {
+                    if digest(d, &mut tok, *m, t) != table[i * 3 + mi].1 {
+                        after_ok = false;
+                    }
+                }
+            }
+        }
+        let term = format!(
+            "check_interleave {} {} {}",
+            clist(table.iter().map(|(a, b)| cpair(&cn(*a), &cn(*b)))),
+            clist(streams.iter().map(|s| clist(s.iter().map(|x| cn(*x))))),
+            clist(events.iter().map(|(t, h)| format!("({}%nat, {})", t, cn(*h))))
+        );
+        sink.tag(&format!("threads={}", nthreads));
+        let nontrivial = streams.iter().filter(|s| !s.is_empty()).count() >= 2;
+        let id = sink.case(term, json!({"kind": "rust-threads", "round": round, "threads": nthreads, "texts": pool_texts, "streams": streams}), nontrivial);
+        // Rust-side oracle: per thread, in order
+        let mut pos = vec![0usize; nthreads];
+        for (t, h) in &events {
+            let want = table[streams[*t][pos[*t]] as usize].1;
+            if *h != want {
+                sink.fail(id, &format!("thread {} analysis #{} (text {:?}) differs from the single-threaded result", t, pos[*t], pool_texts[(streams[*t][pos[*t]] / 3) as usize]), "");
+                break;
+            }
+            pos[*t] += 1;
+        }
+        if panics.load(Ordering::SeqCst) > 0 {
+            sink.fail(id, "an analysis panicked under concurrency", "");
+        }
+        if !after_ok {
+            sink.fail(id, "single-threaded results changed after the concurrent run: the dictionary was modified", "");
+        }
+    }
+
+    // ---------------- Python threads sharing one Dictionary
+    let pypkg = std::env::var("VERIF_PYPKG").unwrap_or_default();
+    let root = std::env::var("VERIF_ROOT").unwrap_or_else(|_| ".".into());
+    let pres = format!("{}/python/tests/resources", repo());
+    let nthreads = 6;
+    let streams: Vec<Vec<String>> = (0..nthreads).map(|_| texts(&mut rng, args.n(150, 1500))).collect();
+    std::fs::create_dir_all(&args.work).unwrap();
+    let sp = args.work.join("py_streams.json");
+    let op = args.work.join("py_threads_out.json");
+    std::fs::write(&sp, serde_json::to_vec(&streams).unwrap()).unwrap();
+    let _ = std::fs::remove_file(&op);
+    let st = Command::new("python3").arg(format!("{}/pyharness/run_py_threads.py", root)).arg(format!("{}/sudachi.json", pres)).arg(&pres).arg(&sp).arg(&op).env("PYTHONPATH", &pypkg).output();
+    let id = sink.case_rust_only(json!({"kind": "python-threads", "threads": nthreads, "texts_per_thread": streams[0].len()}), true);
+    sink.tag("python-threads");
+    match st {
+        Ok(o) if o.status.success() => {
+            let v: Value = std::fs::read_to_string(&op).ok().and_then(|s| serde_json::from_str(&s).ok()).unwrap_or(Value::Null);
+            sink.extra("python_thread_analyses", v["analyses"].clone());
+            if v["mismatches"].as_u64().unwrap_or(1) != 0 {
+                sink.fail(id, &format!("python threads: {} analyses differ from the sequential run, e.g. {}", v["mismatches"], v["example"]), "");
+            }
+        }
+        Ok(o) => sink.fail(id, &format!("python interpreter did not complete (status {:?}): {}", o.status.code(), String::from_utf8_lossy(&o.stderr).chars().take(400).collect::<String>()), ""),
+        Err(e) => sink.fail(id, &format!("cannot start python3: {}", e), ""),
+    }
+    let _ = std::fs::remove_dir_all(&dir);
+    sink.finish();
 }
